@@ -64,6 +64,7 @@ class Sim:
         self.aborted = None
         self.seq = 0  # global event sequence number
         self.stats = collections.Counter()
+        self.frozen = set()  # Recs a scenario hook holds back
         self.force_next = None  # Rec that must run next if enabled (set by a hook: enumerated expiry position)
         self.hooks = []  # callables(sim, rec, kind) run at yield points of the current thread (expiry forcing etc.)
         self.interleave = hashlib.sha256()
@@ -110,6 +111,8 @@ class Sim:
     def _enabled(self):
         out = []
         for r in self.order:
+            if r in self.frozen:
+                continue  # held back by a scenario hook (e.g. between a forced expiry and the delivery of the interrupt)
             if r.state == 'runnable':
                 out.append(r)
             elif r.state == 'blocked':
@@ -485,24 +488,40 @@ _back = set()
 _mon_ready = False
 
 
+_prefix = None  # with arm_prefix(): only code objects of files under this prefix are switch points (global events)
+
+
 def _cb_start(code, off):
+    if _prefix is not None and not code.co_filename.startswith(_prefix):
+        return mon.DISABLE
     s = SIM
     if s is not None:
         s.yield_point('start')
 
 
 def _cb_cret(code, off, c, a):
+    if _prefix is not None and not code.co_filename.startswith(_prefix):
+        return
     s = SIM
     if s is not None:
         s.yield_point('cret')
 
 
+def _cb_call(code, off, c, a):
+    if _prefix is not None and not code.co_filename.startswith(_prefix):
+        return mon.DISABLE
+
+
 def _cb_jump(code, off, dest):
+    if _prefix is not None and not code.co_filename.startswith(_prefix):
+        return mon.DISABLE
     if dest < off:
         _back.add(_thread.get_ident())  # only mark: raising from a JUMP callback skips handlers (interpreter defect)
 
 
 def _cb_line(code, ln):
+    if _prefix is not None and not code.co_filename.startswith(_prefix):
+        return mon.DISABLE
     t = _thread.get_ident()
     if t in _back:
         _back.discard(t)
@@ -522,7 +541,7 @@ def _setup_monitoring():
     mon.register_callback(TOOL, EV.C_RAISE, _cb_cret)
     mon.register_callback(TOOL, EV.JUMP, _cb_jump)
     mon.register_callback(TOOL, EV.LINE, _cb_line)
-    mon.register_callback(TOOL, EV.CALL, lambda *a: None)
+    mon.register_callback(TOOL, EV.CALL, _cb_call)
     _mon_ready = True
 
 
@@ -533,6 +552,17 @@ def arm(code):
     for c in code.co_consts:
         if isinstance(c, types.CodeType):
             arm(c)
+
+
+def arm_prefix(prefix, c_raise=True):
+    """Every switch point of every code object whose file lies under `prefix` becomes a scheduling point (the same set
+    of points the virtual limiter of engine E2 counts)."""
+    global _prefix
+    _setup_monitoring()
+    _prefix = prefix
+    if not c_raise:
+        mon.register_callback(TOOL, EV.C_RAISE, None)
+    mon.set_events(TOOL, EV.PY_START | EV.PY_RESUME | EV.CALL | EV.JUMP | EV.LINE)
 
 
 def arm_module_functions(module, names=None):
